@@ -220,6 +220,10 @@ _SPECS = {
     'd3_reuse':      {'hierarchy': ['class', 'subclass', 'cluster'],
                       'class': {'A': ['B', 'A'], 'B': ['C']},
                       'subclass': {'A': ['A', 'c1'], 'B': ['B'], 'C': ['c3', 'C']}},
+    # a level whose name is a prefix of the next level's name
+    'd3_prefix':     {'hierarchy': ['type', 'type_fine', 'cluster'],
+                      'type': {'T1': ['f2'], 'T0': ['f0', 'f1']},
+                      'type_fine': {'f0': ['c0', 'c1'], 'f1': ['c2', 'c3'], 'f2': ['c4']}},
     'd2_reuse':      {'hierarchy': ['class', 'cluster'],
                       'class': {'B': ['A', 'c2'], 'A': ['B', 'c0', 'c1']}},
 }
